@@ -24,6 +24,8 @@ def run_property(prop, tier="quick", repo="/repo", evidence_dir=None, quiet=Fals
         from .model import Program
 
         prog = Program(repo)
+        if prog.normalised or prog.inlined:
+            rep.extra["normalisations"] = list(prog.normalised) + [f"inlined {h} into {c}" for c, h in prog.inlined]
         mod.check(prog, rep)
         if tier == "thorough" and selftest and hasattr(mod, "VARIANTS"):
             from .selftest import run_selftest
